@@ -126,7 +126,7 @@ impl Proj {
                 v
             };
             let ins = pick(t, maxin, true);
-            let mut imp = pick(t, 1, true);
+            let mut imp = pick(t, 2, true);
             imp.retain(|x| !ins.contains(x));
             let mut oo = pick(t, 1, false);
             oo.retain(|x| !ins.contains(x) && !imp.contains(x));
@@ -147,7 +147,7 @@ impl Proj {
             } else {
                 None
             };
-            let deps = if !phony && o.deps && t.chance(40) { 1 + t.below(2) as u8 } else { 0 };
+            let deps = if !phony && o.deps && t.chance(40) { [1u8, 2, 1, 2, 3][t.below(5)] } else { 0 };
             let rsp = if !phony && o.rsp && t.chance(15) { Some(0) } else { None };
             if phony {
                 phony_outs.extend(outs.iter().cloned());
@@ -231,7 +231,7 @@ impl Proj {
         s.rsp.map(|v| (format!("{}.rsp", s.outs[0]), format!("{} {}", rsp_word(v), s.ins.join("\n"))))
     }
     pub fn depfile_of(&self, s: &Step) -> Option<String> {
-        if s.deps == 1 {
+        if s.deps == 1 || s.deps == 3 {
             Some(format!("{}.d", s.outs[0]))
         } else {
             None
@@ -386,10 +386,10 @@ impl Proj {
                 } else {
                     b += &format!("rule {}\n  command = cmd{}v{} $in -- $out\n", rn, s.uid, s.ver);
                 }
-                if s.deps == 1 {
+                if s.deps == 1 || s.deps == 3 {
                     b += &format!("  depfile = {}.d\n", s.outs[0]);
                 }
-                if s.deps == 2 {
+                if s.deps == 2 || s.deps == 3 {
                     b += "  deps = msvc\n";
                 }
                 if let Some(v) = s.rsp {
